@@ -20,6 +20,8 @@ CONFIG = {
                  "cache.HbflReload / IsHiddenBoardFriend over the shared-memory friend-list row (the list file is the uid each line resolves to; "
                  "whether the reload replaces the whole row is regenerated from the source)",
                  "the trace an accepted comment / edit leaves in the index entry (Modified := file time), as far as later decisions see it",
+                 "cache.ParseBMList (tokens of the BM field -> moderator cache) and bbs.BBoardID.ToRaw (name of the request id = name of the bid's board): "
+                 "in the driver only, tied by correspondence, no theorem",
                  "bodies of DoPostArticle/Recommend/EditPost/CrossPost: regenerated event lists, interpreted"],
     "assumptions": [
         "valid uid and bid, consistent (bid, board name) pairs (C07's domain); I/O calls of the write path succeed; EditPost is given the "
